@@ -157,9 +157,10 @@ func ReadUint16Slice(r Reader, c []uint16) (n int64, err error) {
 		c[i] = binary.LittleEndian.Uint16(slice[j:])
 	}
 
-	// Discard what was peeked
 	var inc int
-	if inc, err = r.Discard(len(slice)); err != nil {
+	// Only the decoded elements: the peeked bytes may end with a part of the next element
+	// (size of the reader's buffer not a multiple of the element size).
+	if inc, err = r.Discard(buffered << 1); err != nil {
 		return n + int64(inc), err
 	}
 
@@ -238,9 +239,10 @@ func ReadUint32Slice(r Reader, c []uint32) (n int64, err error) {
 		c[i] = binary.LittleEndian.Uint32(slice[j:])
 	}
 
-	// Discard what was peeked
 	var inc int
-	if inc, err = r.Discard(len(slice)); err != nil {
+	// Only the decoded elements: the peeked bytes may end with a part of the next element
+	// (size of the reader's buffer not a multiple of the element size).
+	if inc, err = r.Discard(buffered << 2); err != nil {
 		return n + int64(inc), err
 	}
 
@@ -319,9 +321,10 @@ func ReadUint64Slice(r Reader, c []uint64) (n int64, err error) {
 		c[i] = binary.LittleEndian.Uint64(slice[j:])
 	}
 
-	// Discard what was peeked
 	var inc int
-	if inc, err = r.Discard(len(slice)); err != nil {
+	// Only the decoded elements: the peeked bytes may end with a part of the next element
+	// (size of the reader's buffer not a multiple of the element size).
+	if inc, err = r.Discard(buffered << 3); err != nil {
 		return n + int64(inc), err
 	}
 
